@@ -504,8 +504,12 @@ where
         return Err(fail::<T>("deserialize-len-hint", format!("{}: deserialize_tuple_struct hints {:?}, expected one call with len {n} (a length-prefixed carrier reads exactly that many elements)", T::NAME, hints)));
     }
     if hints[0].0 != T::NAME {
-        t.class("note: deserialize_tuple_struct name hint differs from the type name");
-        t.notes.insert(format!("deserialize-name-hint/{}", T::NAME), json!(hints[0].0));
+        // a carrier that writes and checks struct names (RON with struct names, any schema-checking format) cannot read
+        // back what Serialize wrote: the value does not round-trip through that exact carrier
+        return Err(fail::<T>(
+            "deserialize-name",
+            format!("{} serialises as tuple struct {:?} but asks the deserializer for tuple struct {:?}: a name-checking carrier rejects its own output", T::NAME, T::NAME, hints[0].0),
+        ));
     }
     // every shorter sequence is rejected
     for l in 0..n {
